@@ -16,10 +16,22 @@ claims = {
    text="Explicit-state BFS over the registration API of the real router (Handle/HandleRoute/Update/UpdateRoute/Delete/Truncate, direct / committed txn / aborted txn, malformed inputs) from the empty router; states deduplicated on (map model, canonical tree dump); every transition checked against a sequential map model on results, error classes, conflict sets and every read API (router, read-only txn, inside the write txn).",
    note="State merging assumes no hidden mutable state beyond the dumped tree; conflict rule of the model stated in evidence. Bounds: two pools (shared prefixes/hostnames: 10 patterns x 2-3 methods, <=2-3 live routes expanded; siblings: 7 patterns, <=5-6 live routes).",
    technique="explicit-state breadth-first search over the implementation's transition function with a reference-model oracle on every transition"),
+ "C03": dict(level="model_checking", design="4/C03",
+   text="Sequential: every operation sequence up to a length from every seed state, in four modes (direct, inside one committed/aborted write transaction, issued from inside a request handler); all four kinds of snapshot (Router.Iter, read-only Txn, Txn.Snapshot, Txn.Iter, the request being served) are taken and re-read after every later operation and ending, and the final state is compared with the snapshot-free twin. Eviction: transactions touching 5000 inner nodes (copy cache 4096). Concurrent: all interleavings up to a preemption bound of a reader re-reading a snapshot against committing writers.",
+   note=SCHED + " Observation equality is byte equality of a rendering of every read API. Bounds: sequences <=2 (quick) / 3 (thorough) over 19 operations, 2 pattern pools, seeds <=3 routes; preemption bound 2/3.",
+   technique="explicit enumeration of histories with snapshots at every position on the implementation + preemption-bounded schedule exploration; oracle = observation equality"),
+ "C04": dict(level="model_checking", design="4/C04",
+   text="Sequential fault enumeration: every transaction body up to a length over a 21-operation alphabet (incl. Snapshot/Iter) from every seed state, ended in 7 ways (commit, abort, commit-then-abort, abort-then-commit, Updates returning nil / an error / panicking); router and transaction observed after every step (isolation, read-your-writes), all-or-nothing after the ending, lock released, settled transaction refuses use, read-only transaction refuses writes. Concurrent: all interleavings up to a preemption bound of a 3-operation transaction (5 endings) against two reader threads with a linearizability oracle in which a transaction is one atomic operation.",
+   note=SCHED + " Every prefix of a body is itself an enumerated body, so an ending after every prefix is covered. The per-step observation of the open transaction avoids Txn.Iter/Snapshot (they reset the writable-node cache and would perturb the transaction under test); those are body operations instead. Bounds: bodies <=2 (quick) / 3 (thorough), 28 seeds, preemption bound 2/3.",
+   technique="fault enumeration over transaction bodies x endings on the implementation with a map-model oracle + preemption-bounded schedule exploration with a linearizability oracle"),
  "C05": dict(level="model_checking", design="4/C05",
    text="Every interleaving, up to a stated preemption bound, of closed 2-3-thread programs (hand-written and generated from operation alphabets) on the real router under a controlled scheduler that owns every mutex/atomic/pool operation; each execution's history plus final reads is checked for linearizability against a sequential map model (porcupine), plus no panic and no deadlock.",
    note=SCHED + " Bounds: <=3 threads, <=4 operations per thread, preemption bound 2/1 (quick) and 3/2 (thorough).",
    technique="stateless model checking of the implementation: preemption-bounded DFS over thread interleavings under a controlled scheduler, linearizability oracle"),
+ "C06": dict(level="model_checking", design="4/C06",
+   text="Full product {34 read entry points, incl. every ServeHTTP branch and handles that became stale after a commit} x {5 stages at which a write transaction is parked and held open} x {4 option profiles}, each run under the controlled scheduler with the writer lock logically held for the whole execution: the reader must run to completion (a Lock that can never be granted is reported as a deadlock with the blocking operation) and its event log must contain no mutex operation at all; plus converse scenarios (readers parked inside a handler / View / iteration / holding a Lookup context versus writers; two writers) over all interleavings.",
+   note="Blocking is decided by the scheduler, never by a timeout. The statement's static reading (every call path statically reachable from the read entry points) is a call-graph argument outside this technique; the dynamic product covers every exported read entry point.",
+   technique="exhaustive product of read entry points x parked-writer states under a controlled scheduler with a lock-event monitor; unbounded interleaving exploration for the converse scenarios"),
  "C07": dict(level="model_checking", design="4/C07",
    text="Explicit-state BFS over registration histories; every reachable implementation state (registered set, tree dump) is compared with a fresh router filled in sorted order on probes derived from all pool patterns under 3 option profiles; all insertion permutations of small sets are compared likewise.",
    note="One representative history per (set, tree dump) by the C02 merging argument; Allow compared as a set. Bounds as C02; permutations of sets <=3-5.",
